@@ -60,3 +60,47 @@ Theorem C17_record_kept :
 Proof. exact build_failed_rule_history_unchanged. Qed.
 
 Check C17_contradiction_names_differing_targets.
+
+(* ---- the earlier record is kept: at every instant, for every rule (round 4; Proofs/HistMono.v) ----
+   `hists_le w w'`: every history file of w that decodes is still there in w', decodes, and contains every entry it had
+   (same key, same remembered outputs). It holds between the start of a build and EVERY prefix of its actions (every
+   crash point), from ANY world, under every work order and every interleaving at the cache operations; a clean leaves the
+   history directory as it is. An existing entry is never replaced (history_insert returns the very same history), so a
+   contradiction can always be detected later. The seeded changes C04-4 / C13-4 (histories filed under another rule's
+   name) violate it: HistMono.hm_shifted_refuted. *)
+From Ruler Require Import Bytes AList RuleSyntax TopoSort World Work Build Ops Inv InvFacts Acts Sched Fine C01Facts HistMono.
+
+Theorem C17_what_hists_le_says : forall w w' : world sym,
+  hists_le_sym w w' <->
+  forall hs name h, rd_hist (w_rd w) = Some hs -> alookup sym_eqb hs name = Some (SF_ok h) ->
+    exists hs' h', rd_hist (w_rd w') = Some hs' /\ alookup sym_eqb hs' name = Some (SF_ok h') /\
+                   forall k v, alookup sym_eqb h k = Some v -> alookup sym_eqb h' k = Some v.
+Proof. exact hists_le_sym_unfold. Qed.
+Print Assumptions C17_what_hists_le_says.
+
+Theorem C17_every_record_kept_at_every_crash_point_of_a_build : forall (w : world sym) rp goal pre suf,
+  build_acts_sym w rp goal = pre ++ suf -> hists_le_sym w (run_acts_sym pre w).
+Proof. exact build_histories_only_grow_sym. Qed.
+Print Assumptions C17_every_record_kept_at_every_crash_point_of_a_build.
+
+Theorem C17_history_directory_unchanged_at_every_crash_point_of_a_clean : forall (w : world sym) rp goal pre suf,
+  clean_acts_sym w rp goal = pre ++ suf ->
+  rd_hist (w_rd (run_acts_sym pre w)) = rd_hist (w_rd w) \/
+  (rd_hist (w_rd w) = None /\ rd_hist (w_rd (run_acts_sym pre w)) = Some []).
+Proof. exact clean_histories_unchanged_sym. Qed.
+Print Assumptions C17_history_directory_unchanged_at_every_crash_point_of_a_clean.
+
+Theorem C17_every_record_kept_by_a_build : forall (w : world sym) rp goal,
+  hists_le_sym w (o_world (build_sym w rp goal)).
+Proof. exact build_keeps_every_record_sym. Qed.
+Print Assumptions C17_every_record_kept_by_a_build.
+
+Theorem C17_every_record_kept_under_every_work_order : forall ord (w : world sym) rp goal,
+  hists_le_sym w (o_world (build_ord sym_eqb SContent SList SRule ord w rp goal)).
+Proof. exact build_ord_keeps_every_record_sym. Qed.
+Print Assumptions C17_every_record_kept_under_every_work_order.
+
+Theorem C17_every_record_kept_under_every_interleaving : forall ch (w : world sym) rp goal,
+  hists_le_sym w (o_world (build_fine sym_eqb SContent SList SRule ch w rp goal)).
+Proof. exact build_fine_keeps_every_record_sym. Qed.
+Print Assumptions C17_every_record_kept_under_every_interleaving.
